@@ -164,6 +164,7 @@ NEEDS = {
  "C13i-dotted-name-taken-for-file": ("C13", ["C13"], "a module whose name contains a dot, fetched from the search path by name"),
  "C20i-rune-reencoding-per-write": ("C20", ["C20"], "a Write boundary inside a multi-byte UTF-8 character"),
  "C14i-enum-name-with-blank-refused": ("C14", ["C14"], "an enum member whose name has a blank in its interior"),
+ "C16h-unquoted-tail-skip-counts-bytes": ("C16", ["C16"], "an unquoted token longer than 65 bytes with a multi-byte character beyond byte 65, followed on the line by a statement whose position is reported"),
  "C20b-empty-write-clears-partial": ("C20", ["C20"], "zero-length Write in the middle of a line clears the mid-line flag: the next Write gets a prefix inside the line"),
  "C20-early-out-continued-line": ("C20", ["C20"], "short write of 1..len(prefix) bytes on a Write that continues a partial line returns 0 although caller bytes were written"),
 }
